@@ -71,9 +71,9 @@ def neighbours(s: str):
 def random_fields(rng, kind, gen=False):
     if kind == "unit":
         return []
-    n = rng.randint(1, 3)
+    n = rng.randint(1, 3) if rng.random() > 0.15 else 0      # `V()` and `V {}`: tuple / struct variants WITHOUT fields
     tys = [rng.choice(FIELD_TYPES) for _ in range(n)]
-    if gen:
+    if gen and tys:
         tys[0] = "G0"
     if kind == "tuple":
         return [Field(t) for t in tys]
@@ -261,6 +261,16 @@ def fromstr_inputs(it: Item, info, rng, flipcap=32, nrandom=8):
         put(ident, "near-ident")
         for alt in (ident.lower(), ident.upper(), ident.replace("_", "-"), ident.replace("_", "")):
             put(alt, "near-ident")
+    prefix = next((m.s for m in it.metas if m.kind == "prefix"), None)
+    if prefix:
+        # the prefix is part of the PRINTED name only: prefix + spelling is not a spelling
+        put(prefix, "near-prefix")
+        put(prefix + "zzz", "near-prefix")
+        for v in info["variants"]:
+            for sp in v["spellings"][:3]:
+                put(prefix + sp, "near-prefix")
+                if sp.startswith(prefix):
+                    put(sp[len(prefix):], "near-prefix")
     for s in ("", " ", "é", "K", "ſ", "ı", "ß", "x" * 300, "null", "None", "0"):
         put(s, "far")
     alphabet = "abBlueREd-_ 1éß"
